@@ -89,6 +89,8 @@ class WhenProp:
                 now = rnd.randrange(946_684_800, 2_145_916_800) * NS_S
                 tods = []
             now += rnd.choice([0, 0, 500 * NS_MS, 1])
+            if not tods:
+                t = a = b = 0
             kind = rnd.choice(['now', 'after', 'after', 'tod', 'tod', 'tod', 'naive', 'aware', 'postd', 'postd'])
             form = rnd.randrange(4)
             if kind == 'after':
@@ -103,6 +105,10 @@ class WhenProp:
                     val = (val // NS_DAY) * NS_DAY + rnd.choice(tods)
             elif kind == 'aware':
                 val = now + rnd.randint(-100, 100) * NS_HOUR
+                if tods and rnd.random() < 0.6:
+                    # inside / around the repeated or skipped hour: first pass, second pass, edges
+                    g = abs(b - a)
+                    val = (t + rnd.choice([-g, -g // 2, -1, 0, 1, g // 2, g - 1, g])) * NS_S
             elif kind == 'postd':
                 val = rnd.choice([0, -NS_S, NS_S, 1_000, 125 * NS_MS, -125 * NS_MS, 3600 * NS_S])
             else:
